@@ -45,9 +45,14 @@ def demo_desc():
     }
 
 
-RENAMES = {"project": "show", "type": "kind", "leaf": "fmt", "version": "ver", "state": "status", "node": "obj"}
+RENAMES = {"project": "show", "type": "kind", "leaf": "fmt", "version": "ver", "state": "frame", "node": "obj"}
 LEVEL_RENAMES = {"assettype": "cat", "asset": "thing", "task": "step", "sequence": "seq", "shot": "cut"}
 BASE_RENAMES = {"asset": ["elem", "e", "ELEMS"], "shot": ["scene", "c", "SCENES"]}
+
+
+# A key-name-only variant kept apart from the seeded ones: the demo configuration with its 'state' key CALLED 'frame'.
+# FindInPaths hard-codes that key name (file sequence search); see known_findings.json / DESIGN 12.5.
+FRAME_VARIANT = 900001
 
 
 def make_variant(v):
@@ -55,6 +60,10 @@ def make_variant(v):
     d = demo_desc()
     d["variant"] = v
     if v == 0:
+        return d
+    if v == FRAME_VARIANT:
+        d["keys"]["state"] = "frame"
+        d["transformations"] = ["key_named_frame"]
         return d
     rng = random.Random(derive(20, "variant", v))
     ops = ["rename_keys", "rename_levels", "rename_bases", "leaf_only", "separator", "folders", "vocab", "digits",
